@@ -172,6 +172,13 @@ def recurrent(c):
     o3 = c.outcome(c.getattr(lay, "forward"), x1)
     c.expect_return(o3)
     c.ensure("after_clear_first_step_again_without_feedback", o3.value[0].f == eff1)
+    # keyword arguments for individual components: each one receives exactly its own (e.g. adapt=False for one neuron group)
+    log.clear()
+    kws = dict(feedfwd_connection_kwargs={"a": 1}, lateral_connection_kwargs={"b": 2}, feedback_connection_kwargs={"c": 3}, feedfwd_neuron_kwargs={"adapt": False}, feedback_neuron_kwargs={"adapt": True, "refrac_lock": False})
+    o4 = c.outcome(c.getattr(lay, "forward"), x2, **kws)
+    c.expect_return(o4)
+    got = {(e[0], e[1]): e[4] for e in log if e[2] == "call"}
+    c.ensure("keyword_arguments_reach_exactly_their_component", got == {("connection", "ff"): {"a": 1}, ("connection", "lat"): {"b": 2}, ("connection", "fb"): {"c": 3}, ("neuron", "nff"): {"adapt": False}, ("neuron", "nfb"): {"adapt": True, "refrac_lock": False}})
     c.canary("canary_feedback_ignored", z3.And(ff2.f == (Nff(Cff(x2.f) + Cfb(z3.RealVal(0))) > 0), efb1, Cfb(z3.RealVal(1)) != Cfb(z3.RealVal(0)), Nff(Cff(x2.f) + Cfb(z3.RealVal(1))) > 0, Nff(Cff(x2.f) + Cfb(z3.RealVal(0))) <= 0))
 
 
@@ -238,6 +245,7 @@ for _cd in list(_REG.get("C03", [])):
         contract(P, _cd.name, list(_cd.targets), min_obligations=_cd.min_obligations)(_cd.fn)
 
 MUTANTS = [
+    dict(file=NW, func="RecurrentSerial.forward", old="            neuron_kwargs=nkw,\n            capture_intermediate=True,\n            forward_pass=False,", new="            capture_intermediate=True,\n            forward_pass=False,", contracts=["RecurrentSerial"], name="seed C11g: keyword arguments of the feedback neuron group dropped"),
     dict(file="inferno/neural/neurons/mixins.py", func="SpikeRefractoryMixin.spike", old="        return self.refrac == getattr(self, self.__absrefrac_attr)", new="        return self.refrac > 0", contracts=["LIF.forward"], name="seed C17f / C03e: the spike attribute means 'still refractory'"),
     dict(file=NW, func="Biclique.__init__", old='                        list(tensors.values()), "s ... -> ...", combine.lower()', new='                        torch.cat(list(tensors.values())), "s ... -> ...", combine.lower()', contracts=["Biclique"], name="seed C11e: connection outputs concatenated along the batch axis before the combine reduction"),
     dict(file="inferno/neural/synapses/expcurrent.py", func="DoubleExponentialCurrent.clear", old="        self.neg_current_.reset(0.0)", new="        self.pos_current_.reset(0.0)", contracts=["DoubleExponentialCurrent.forward"], name="seed C17e: clear never resets the rise component"),
